@@ -30,9 +30,11 @@ from coba.context import CobaContext, NullLogger
 from coba.pipes import ListSink
 from coba.experiments import Experiment
 from coba.results import Result
+from coba.json import dumps as coba_dumps
 from coba.primitives import L1Reward, BinaryReward, HammingReward, DiscreteReward
 
 from vlib.comps_c07 import C07Env, C07Learner, C07Evaluator
+from vlib import comps_c07 as comps
 
 ID = "C07"
 LEVEL = "exploration"
@@ -58,7 +60,7 @@ ASSUMPTIONS = [
     "ids are assigned in order of first appearance in the triple list (what MakeTasks documents and restoring relies on)",
     "reward objects (L1Reward, BinaryReward, HammingReward, DiscreteReward) inside rows are only compared across the routes",
     "values that json cannot serialise (sets, bytes, arbitrary objects) and learner params that are not dictionaries are not generated; lone surrogates are generated in string values, not in field names",
-    "single-process, in-process execution only (multi-process and crash/resume are C01-C03)",
+    "single-process, in-process execution (multi-process and crash/resume are C01-C03) except the small fixed sub-check `workers`",
 ]
 
 TMP_ROOT = tempfile.gettempdir()
@@ -72,7 +74,7 @@ def materialise(v):
         if len(v) == 1 and "$rwd" in v:
             kind, *args = v["$rwd"]
             if kind == "L1": return L1Reward(args[0])
-            if kind == "BR": return BinaryReward(args[0])
+            if kind == "BR": return BinaryReward(*args)
             if kind == "HR": return HammingReward(list(args[0]))
             if kind == "DR": return DiscreteReward(list(args[0]), list(args[1]))
             raise ValueError(kind)
@@ -108,7 +110,7 @@ def do_run(case, path, logs, what, stamp=1):
     CobaContext.logger = NullLogger(sink)
     exp = build(case, stamp)
     try:
-        return exp.run(path, quiet=True, processes=1, maxchunksperchild=0, maxtasksperchunk=0)
+        return exp.run(path, quiet=True, processes=case.get("procs", 1), maxchunksperchild=case.get("mcpc", 0), maxtasksperchunk=0)
     except Exception as e:
         raise Violation(f"[{what}] Experiment.run raised {type(e).__name__}: {ascii_text(e)}") from e
     finally:
@@ -148,12 +150,25 @@ def build_model(case, rerun=()):
         "evaluators": ptable(vm, case["vals"], "eval_type", "C07Evaluator"),
     }
 
+def loose_eq(a, b):
+    if isinstance(a, bool) or isinstance(b, bool): return a is b
+    if isinstance(a, (int, float)) and isinstance(b, (int, float)):
+        return (math.isnan(a) and math.isnan(b)) if (isinstance(a, float) and math.isnan(a)) or (isinstance(b, float) and math.isnan(b)) else abs(a - b) <= 1e-5 * max(1.0, abs(a))
+    if isinstance(a, (list, tuple)) and isinstance(b, (list, tuple)): return len(a) == len(b) and all(loose_eq(x, y) for x, y in zip(a, b))
+    if isinstance(a, dict) and isinstance(b, dict): return list(map(str, a)) == list(map(str, b)) and all(loose_eq(x, y) for x, y in zip(a.values(), b.values()))
+    return a == b
+
 def is_missing(x):
     return type(x).__name__ == "MissingType"
 
 def agree(raw, act, top, field=None):
     """None if the value read back agrees with the normalised generated value, else a short reason"""
-    if is_rwd(raw): return None
+    if is_rwd(raw):
+        # a reward object is logged as {registered name: state}: compare with the JSON form of a freshly built twin (numbers up
+        # to the 5-decimal rounding) - a copy that travelled through pickle / deepcopy must be logged like the original
+        try: want = json.loads(coba_dumps(materialise(raw)))
+        except Exception: return None
+        return None if loose_eq(want, act) else f"reward object is not logged as the JSON form of the object the evaluator yielded ({want!r})"
     if raw is None:
         return None if (act is None or is_missing(act)) else "expected None"
     if isinstance(raw, bool):
@@ -274,8 +289,86 @@ def same_results(what, a, b, logs):
     d = first_diff(a, b)
     require(d is None, f"{what} differ at {d}", logs=logs[:2])
 
+def run_aborted(case):
+    """Ctrl-C inside the k-th evaluation: Experiment.run logs it and returns what was recorded. Every evaluation that ran to its
+    end before that has exactly its rows (the aborted one may have left rows or not - whatever is there must be its own rows -
+    and no evaluation that never started has any), and the three routes still agree. A later run on the file completes it."""
+    ab = case["abort"]
+    em, lm, vm, tids = ids_of(case)
+    tid_of = {tuple(t): tid for t, tid in zip(case["triples"], tids)}
+    full = build_model(case)
+    def one(path, what):
+        comps.arm_abort(ab["at"], ab["rows"])
+        logs = []
+        try:
+            res = do_run(case, path, logs, what)
+        finally:
+            done, hit = list(comps.ABORT["done"]), comps.ABORT["hit"]
+            comps.arm_abort()
+        if hit is None: raise Inconclusive("the run has fewer evaluations than the abort position")
+        done_ids = {tid_of[t] for t in done}; hit_id = tid_of[hit]
+        got = {tuple(d[c] for c in ("environment_id", "learner_id", "evaluator_id", "index")) for d in res.interactions.to_dicts()}
+        expected = {k: v for k, v in full["interactions"].items() if k[:3] in done_ids or (k[:3] == hit_id and k in got)}
+        check_rows(what, "interactions", ("environment_id", "learner_id", "evaluator_id", "index"), expected, res.interactions, logs, full["all_empty"])
+        for tname, idc in (("environments", "environment_id"), ("learners", "learner_id"), ("evaluators", "evaluator_id")):
+            have = {d[idc] for d in getattr(res, tname).to_dicts()}
+            need = {tid[("environments", "learners", "evaluators").index(tname)] for tid in done_ids}
+            require(need <= have, f"[{what}] {tname}: a completed evaluation's component has no row after the aborted run", missing=sorted(need - have), logs=logs[:2])
+            check_rows(what, tname, (idc,), {(k,): v for k, v in full[tname].items() if k in have}, getattr(res, tname), logs)
+        return res, logs, len(done_ids)
+    r_mem, logs, n_done = one(None, "aborted, no file")
+    if case["sink"] == "none": return
+    tmp = tempfile.mkdtemp(prefix="c07-", dir=TMP_ROOT)
+    try:
+        path = os.path.join(tmp, "result.log" + (".gz" if case["sink"] == "gz" else ""))
+        r_file, logs2, _ = one(path, "aborted, " + case["sink"] + " file")
+        try:
+            r_load = Result.from_file(path)
+        except Exception as e:
+            raise Violation(f"Result.from_file raised {type(e).__name__} after an aborted run: {ascii_text(e)}") from e
+        d_mem, d_file, d_load = dump(r_mem), dump(r_file), dump(r_load)
+        same_results("aborted run: Result(no file) and Result(file)", d_mem, d_file, logs + logs2)
+        same_results("aborted run: Result(file) and Result.from_file(file)", d_file, d_load, logs2)
+        if case["restore"]:
+            logs3 = []
+            r_rest = do_run(case, path, logs3, "completing run")
+            check_model("completing run", r_rest, full, logs3)
+            same_results("completing run and Result.from_file", dump(r_rest), dump(Result.from_file(path)), logs3)
+    finally:
+        shutil.rmtree(tmp, ignore_errors=True)
+
+def run_workers(case):
+    """the same experiment in-process and through really spawned workers (rows cross the process boundary by pickle): the tables
+    agree with the model and with each other, reward objects included"""
+    model = build_model(case)
+    logs = []
+    r_in = do_run(dict(case, procs=1, mcpc=0), None, logs, "in-process")
+    check_model("in-process", r_in, model, logs)
+    r_w = do_run(case, None, logs, f"workers(processes={case['procs']}, maxchunksperchild={case['mcpc']})")
+    check_model("workers", r_w, model, logs)
+    a, b = dump(r_in), dump(r_w)
+    for name in ("environments", "learners", "evaluators", "interactions"):   # workers finish in any order: compare as sorted rows
+        require(a[name]["columns"] == b[name]["columns"] or sorted(a[name]["columns"]) == sorted(b[name]["columns"]), f"in-process and worker run: {name} columns differ", a=a[name]["columns"], b=b[name]["columns"])
+        ra = sorted((repr(sorted(zip(a[name]["columns"], r), key=lambda kv: kv[0])) for r in a[name]["rows"]))
+        rb = sorted((repr(sorted(zip(b[name]["columns"], r), key=lambda kv: kv[0])) for r in b[name]["rows"]))
+        d = next(((x, y) for x, y in zip(ra, rb) if x != y), None)
+        require(ra == rb, f"in-process and worker run: {name} rows differ", first=d, logs=logs[:2])
+
+def workers(tier):
+    """a few fixed experiments whose rows hold every kind of reward object (values other than 1 included) and nested cells"""
+    R = [{"$rwd": ["BR", 2]}, {"$rwd": ["BR", 1, 0.5]}, {"$rwd": ["BR", 0, 2]}, {"$rwd": ["L1", 0.25]}, {"$rwd": ["HR", [0, 2]]}, {"$rwd": ["DR", [1, 2], [0.5, 0.25]]}]
+    for procs, mcpc in ([(2, 0), (1, 1)] if tier == "quick" else [(2, 0), (1, 1), (2, 1), (3, 2)]):
+        for ne in (1, 3):
+            triples = [[e, 0, 0] for e in range(ne)]
+            rows = [[{"reward": 0.5 * (e + 1), "rewards": R[(e + j) % len(R)], "a": [e, (j, "x")]} for j in range(len(R))] for e in range(ne)]
+            yield {"envs": [{"i": e} for e in range(ne)], "lrns": [{"family": "w"}], "vals": [{"v": 1}], "form": "product",
+                   "triples": triples, "rows": rows, "sink": "none", "restore": False, "description": None,
+                   "workers": True, "procs": procs, "mcpc": mcpc}
+
 def run(case):
     case = expand(case)
+    if "workers" in case: return run_workers(case)
+    if "abort" in case: return run_aborted(case)
     if "cut" in case: return run_cut_sweep(case)
     if "align" in case: case = with_aligned_description(case)
     model = build_model(case)
@@ -299,6 +392,7 @@ def run(case):
             if longest != case["exact_len"]: raise Inconclusive(f"longest record has {longest} characters, wanted {case['exact_len']}")
         if "align" in case:
             ends = member_ends(path)
+            if len(ends) < 2: raise Inconclusive("the .gz file has a single member")
             j = case["align"]["member"] % (len(ends) - 1)
             if ends[j] % 4096 != 0: raise Inconclusive(f"member {j} ends at {ends[j]}, not on a 4 KiB boundary")
         d_mem, d_file, d_load = dump(r_mem), dump(r_file), dump(r_load)
@@ -388,6 +482,7 @@ def with_aligned_description(case):
             trial = dict(case, description=pad_text(want["salt"], n))
             do_run(trial, path, [], "trial")
             ends = member_ends(path)
+            if len(ends) < 2: raise Inconclusive("the .gz file has a single member")
             j = want["member"] % (len(ends) - 1)     # never the last member
             if target is None: target = (ends[j] // 4096 + want.get("blocks", 1)) * 4096
             diff = target - ends[j]
@@ -472,6 +567,7 @@ dicts = st.dictionaries(st.sampled_from(NESTED_KEYS), nested, max_size=3)
 rewards_objs = st.one_of(
     st.floats(-5, 5).map(lambda x: {"$rwd": ["L1", x]}),
     st.integers(0, 3).map(lambda a: {"$rwd": ["BR", a]}),
+    st.tuples(st.integers(0, 3), st.sampled_from([0.5, 2, 0.25])).map(lambda t: {"$rwd": ["BR", t[0], t[1]]}),
     st.lists(st.integers(0, 4), min_size=1, max_size=3, unique=True).map(lambda a: {"$rwd": ["HR", a]}),
     st.just({"$rwd": ["DR", [1, 2], [0.5, 0.25]]}))
 row_values = st.one_of(scalars, scalars, sequences, sequences, dicts, rewards_objs)
@@ -528,6 +624,26 @@ def cases(draw, tier, with_file):
     # again by the restored run then shows up as different rows
     if case["restore"] and draw(st.booleans()): case["stamp"] = True
     return case
+
+@st.composite
+def aborted_cases(draw, tier):
+    """2-6 evaluations, the k-th (k >= 1 mostly: something completed before) is interrupted after j rows"""
+    ne, nl, nv = draw(st.sampled_from([(2, 1, 1), (3, 1, 1), (2, 2, 1), (1, 2, 2), (3, 2, 1), (2, 1, 2), (1, 3, 1)]))
+    triples = list(itertools.product(range(ne), range(nl), range(nv)))
+    form = draw(st.sampled_from(["product", "triples"]))
+    if form == "triples": triples = list(draw(st.permutations(triples)))
+    rows = [draw(row_lists(4)) for _ in triples]
+    at = draw(st.integers(0, len(triples) - 1))
+    if at == 0 and draw(st.booleans()): at = len(triples) - 1
+    return {
+        "envs": [draw(params_dicts("env_type")) for _ in range(ne)],
+        "lrns": [draw(params_dicts("family")) for _ in range(nl)],
+        "vals": [draw(params_dicts(None)) for _ in range(nv)],
+        "form": form, "triples": [list(t) for t in triples], "rows": rows,
+        "sink": draw(st.sampled_from(["plain", "gz", "gz", "none"])), "restore": draw(st.booleans()),
+        "description": draw(st.one_of(st.none(), strings)),
+        "abort": {"at": at, "rows": draw(st.integers(0, 4))},
+    }
 
 def mem_cases(tier): return cases(tier, False)
 def file_cases(tier): return cases(tier, True)
@@ -684,6 +800,8 @@ def features(case):
 
 def nontrivial(case):
     if "big" in case or "align" in case or "cut" in case: return True
+    if "abort" in case: return case["abort"]["at"] >= 1
+    if "workers" in case: return True
     return bool(features(case) & {"ragged", "nested", "dict-value", "non-finite", "odd-string", "odd-field-name", "non-str-field"})
 
 def classes(case):
@@ -693,6 +811,11 @@ def classes(case):
         return [f"cut-member-from-end={case['cut']['from_end']}" if case["cut"]["from_end"] else "cut-first-record", "sink=" + case["sink"], f"mtime=0x{case['cut']['mtime']:08x}", f"triples={len(case['triples'])}"]
     if "align" in case:
         return [f"aligned-member={case['align']['member']}", f"blocks={case['align'].get('blocks', 1)}", f"triples={len(case['triples'])}"]
+    if "workers" in case:
+        return [f"processes={case['procs']}", f"maxchunksperchild={case['mcpc']}", f"triples={len(case['triples'])}"]
+    if "abort" in case:
+        return [f"aborted-evaluation={min(case['abort']['at'], 3)}{'+' if case['abort']['at'] >= 3 else ''}", f"rows-before-abort={case['abort']['rows']}",
+                "sink=" + case["sink"], "form=" + case["form"]] + (["completed-by-a-later-run"] if case["restore"] and case["sink"] != "none" else [])
     out = sorted(features(case))
     if case.get("stamp"): out.append("stamped")
     out.append("sink=" + case["sink"])
@@ -714,6 +837,11 @@ def classify(case, exc):
     return None
 
 SUBCHECKS = [
+    Sub(name="workers", run=run, enumerate=workers, nontrivial=nontrivial, classes=classes, classify=classify, quick_shards=2, thorough_shards=4,
+        what="fixed experiments whose rows hold every kind of reward object (BinaryReward values other than 1 included) run in-process and through really spawned workers (processes 2 / maxchunksperchild 1; thorough more): model oracle on both, tables equal as row multisets"),
+    Sub(name="aborted", run=run, strategy=aborted_cases, nontrivial=nontrivial, classes=classes, classify=classify, sample_view=sample_view,
+        quick=600, thorough=12000, quick_shards=2,
+        what="Ctrl-C (KeyboardInterrupt) inside the k-th of 2-6 evaluations after j rows: run() returns; every evaluation completed before has exactly its rows and its components' params rows, no unstarted evaluation has rows; Result(no file) == Result(plain/.gz file) == Result.from_file; a later run on the file completes the tables"),
     Sub(name="mem", run=run, strategy=mem_cases, nontrivial=nontrivial, classes=classes, classify=classify, sample_view=sample_view,
         quick=3000, thorough=60000, quick_shards=4,
         what="run without a result file: the four tables vs the normalised model of what the doubles produced"),
